@@ -53,8 +53,8 @@ func parseAnswers(out string) (answers []string, errs []string) {
 			answers = append(answers, l)
 		case strings.HasPrefix(l, "(error"):
 			// z3 4.8 prints an error for get-model after unsat; ignore those
-			if strings.Contains(l, "model is not available") {
-				continue
+			if strings.Contains(l, "model is not available") || strings.Contains(l, "canceled") || strings.Contains(l, "timeout") {
+				continue // a cancelled query is an unanswered one, not a malformed script
 			}
 			errs = append(errs, l)
 		}
